@@ -8,6 +8,8 @@ import typing_h as T
 TABLES = ["Kits"]
 LAKE_TARGETS = ["Moclo.Props.C02", "Moclo.Tables.Kits"]
 THEOREMS = ["Moclo.C02." + t for t in ["report_of_view", "report_rotr", "report_rotrI", "invalid_rotr", "isValid_rotr", "fragment_and_keys_rotr", "kit_classes_three_groups", "generic_three_groups", "part_three_groups", "derefRec_rotr_isSome", "sameRole_of_rotated", "assembly_rotation_invariant", "assembly_rotation_invariant_outcome"]]
+# reductions under which a failing case stays a case of this property (see shrink.py)
+SHRINK = {"lists": ["rots"], "strings": True}
 RULE = ("records with exactly one occurrence of a class structure (checked independently): generated generic "
         "modules/vectors over every enzyme geometry, instances of every kit class, and (thorough) the plasmids of "
         "the bundled registries with their own class; each compared at rotation 0 and at every rotation of short "
